@@ -29,19 +29,19 @@ const maxFingerprints = 400000
 const maxSamples = 6
 
 type Rec struct {
-	mu        sync.Mutex
-	Property  string
-	Unit      string
-	start     time.Time
-	evals     int64
-	nontriv   int64
-	classes   map[string]int64
-	fps       map[[8]byte]struct{}
-	fpsFull   bool
-	samples   []interface{}
-	notes     map[string]interface{}
-	known     map[string]int64 // known-finding id -> number of cases excluded
-	knownWhat map[string]string
+	mu         sync.Mutex
+	Property   string
+	Unit       string
+	start      time.Time
+	evals      int64
+	nontriv    int64
+	classes    map[string]int64
+	fps        map[[8]byte]struct{}
+	fpsFull    bool
+	samples    []interface{}
+	notes      map[string]interface{}
+	known      map[string]int64 // known-finding id -> number of cases excluded
+	knownWhat  map[string]string
 	exhaustive bool
 }
 
